@@ -90,24 +90,26 @@ class Env:
         return self._value(n)
 
     # ------------------------------------------------------------ I
-    def _iterable(self, site=None):
-        return SimIterable(self, site)
+    def _iterable(self, site=None, width=None):
+        return SimIterable(self, site, width)
 
 
 class SimIterable:
-    def __init__(self, env, site):
+    def __init__(self, env, site, width=None):
         self.env = env
         self.site = site
+        self.width = width
 
     def __iter__(self):
         self.env._interact("iter", self.site)
-        return SimIterator(self.env, self.site)
+        return SimIterator(self.env, self.site, self.width)
 
 
 class SimIterator:
-    def __init__(self, env, site):
+    def __init__(self, env, site, width=None):
         self.env = env
         self.site = site
+        self.width = width
         self.count = 0
         self.done = False
 
@@ -134,6 +136,9 @@ class SimIterator:
             self.done = True
             raise StopIteration
         self.count += 1
+        if self.width:
+            # items of an iterable of tuples (for a, b in I(k, 2))
+            return tuple(VALUES[(_h(env.seed, n, "w%d" % j) >> 8) % len(VALUES)] for j in range(self.width))
         return env._value(n)
 
 
@@ -146,6 +151,14 @@ class SimObject:
         n = env.n
         env._interact("getattr", name)
         return env._value(n)
+
+    def __setattr__(self, name, value):
+        env = object.__getattribute__(self, "_env")
+        env._interact("setattr", name, (_arg_repr(value),))
+
+    def __setitem__(self, key, value):
+        env = object.__getattribute__(self, "_env")
+        env._interact("setitem", _arg_repr(key), (_arg_repr(value),))
 
     def __getitem__(self, key):
         env = object.__getattribute__(self, "_env")
